@@ -7,18 +7,33 @@ use std::sync::atomic::{AtomicU64, Ordering};
 
 static COUNTER: AtomicU64 = AtomicU64::new(0);
 
+static BASE: std::sync::OnceLock<PathBuf> = std::sync::OnceLock::new();
+
+fn usable(base: &Path) -> bool {
+    let d = base.join(format!("pkgsim-{}", std::process::id()));
+    std::fs::create_dir_all(&d).is_ok() && std::fs::write(d.join(".probe"), b"x").is_ok()
+}
+
+/// Per-process scratch root: $PKGSIM_SCRATCH, else /dev/shm (tmpfs), else the
+/// system temp directory - the first one that is actually writable.
 pub fn scratch_base() -> PathBuf {
-    let base = match std::env::var("PKGSIM_SCRATCH") {
-        Ok(s) if !s.is_empty() => PathBuf::from(s),
-        _ => {
-            if Path::new("/dev/shm").is_dir() {
-                PathBuf::from("/dev/shm")
-            } else {
-                std::env::temp_dir()
+    BASE.get_or_init(|| {
+        let mut cands: Vec<PathBuf> = Vec::new();
+        if let Ok(s) = std::env::var("PKGSIM_SCRATCH") {
+            if !s.is_empty() {
+                cands.push(PathBuf::from(s));
             }
         }
-    };
-    base.join(format!("pkgsim-{}", std::process::id()))
+        cands.push(PathBuf::from("/dev/shm"));
+        cands.push(std::env::temp_dir());
+        for c in &cands {
+            if c.is_dir() && usable(c) {
+                return c.join(format!("pkgsim-{}", std::process::id()));
+            }
+        }
+        std::env::temp_dir().join(format!("pkgsim-{}", std::process::id()))
+    })
+    .clone()
 }
 
 /// Remove the per-process scratch directory (called once at exit).
